@@ -488,3 +488,22 @@ def nondet_calls(src: Source, f: Func):
             ok = all(id(x) in in_log for x in loads)
         out.append((q, n.lineno, ok, ast.unparse(n)))
     return out
+
+
+def return_exprs(fn_node):
+    """expressions a function returns; a returned local name with a single assignment stands for the assigned expression
+    (`tmp = EXPR; return tmp` is `return EXPR`)"""
+    out = []
+    for r in own_nodes(fn_node):
+        if not isinstance(r, ast.Return) or r.value is None:
+            continue
+        v = r.value
+        if isinstance(v, ast.Name):
+            defs = [n.value for n in own_nodes(fn_node) if isinstance(n, ast.Assign) and len(n.targets) == 1
+                    and isinstance(n.targets[0], ast.Name) and n.targets[0].id == v.id]
+            if len(defs) >= 1:
+                # the definition that precedes the return most closely
+                before = [d for d in defs if d.lineno <= r.lineno]
+                v = (before or defs)[-1]
+        out.append(v)
+    return out
